@@ -104,14 +104,14 @@ func c14E2E(a lib.Args, res *lib.Result) error {
 	}
 	for i, o := range all {
 		f := strings.Fields(out[i])
-		if len(f) != 4 {
+		if len(f) != 2 {
 			return fmt.Errorf("policy validate: bad answer %q", out[i])
 		}
-		best, worst, verdict := f[1], f[2], f[3]
+		mres, verdict := f[0], f[1]
 		in := map[string]interface{}{"check": "put", "document": o.text, "bucket": o.g.bucket, "previous": string(o.before),
 			"gen": map[string]interface{}{"Doc": o.g.doc, "Bucket": o.g.bucket, "Class": o.g.class, "NF": o.g.nfaults, "Judge": o.g.judge}}
 		impl := fmt.Sprintf("PUT ?policy -> %d %s; GET ?policy -> %d %q", o.status, o.code, o.getSt, o.after)
-		model := "model(id,s3:*-first,s3:*-last)=" + strings.Join(f[:3], ",") + " spec=" + verdict
+		model := "model=" + mres + " spec=" + verdict
 		if i < 2 {
 			res.Sample(map[string]interface{}{"document": o.text, "impl": impl, "model": model})
 		}
@@ -126,8 +126,8 @@ func c14E2E(a lib.Args, res *lib.Result) error {
 			if o.g.judge && verdict == "accept" {
 				res.Fail(lib.Failure{Kind: "property", Signature: "validate:refuses-wellformed", What: "a well-formed policy for the bucket is refused", Input: in, Impl: impl, Model: model})
 			}
-			if o.g.doc.Kind == "d" && worst == "ok" {
-				res.Fail(lib.Failure{Kind: "correspondence", Signature: "PutBucketPolicy", What: "PUT ?policy refused a document Model.Policy.validateDocument always accepts", Input: in, Impl: impl, Model: model})
+			if o.g.doc.Kind == "d" && mres == "ok" {
+				res.Fail(lib.Failure{Kind: "correspondence", Signature: "PutBucketPolicy", What: "PUT ?policy refused a document Model.Policy.validateDocument accepts", Input: in, Impl: impl, Model: model})
 			}
 		case o.status/100 == 2:
 			if o.getSt != 200 || !bytes.Equal(o.after, []byte(o.text)) {
@@ -136,17 +136,15 @@ func c14E2E(a lib.Args, res *lib.Result) error {
 			if o.g.judge && verdict == "refuse" {
 				sig, what := "validate:accepts-illformed", "a document that is not a valid policy for the bucket is accepted and stored"
 				switch {
-				case best == "ok" && worst != "ok":
-					sig, what = "validate:map-order-dependent", "an ill-formed document (s3:* next to an action with no resource of its kind) was accepted and stored; acceptance depends on Go map order"
-				case o.g.hasPrefixFault():
-					sig, what = "validate:resource-prefix-of-other-bucket", "a resource whose bucket component merely starts with the bucket name is accepted and stored"
 				case o.g.hasMissing():
 					sig, what = "validate:missing-field", "a statement without Principal, Action or Resource is accepted and stored"
+				case o.g.hasPrefixFault():
+					sig, what = "validate:resource-prefix-of-other-bucket", "a resource whose bucket component merely starts with the bucket name is accepted and stored"
 				}
 				res.Fail(lib.Failure{Kind: "property", Signature: sig, What: what, Input: in, Impl: impl, Model: model})
 			}
-			if o.g.doc.Kind == "d" && best != "ok" {
-				res.Fail(lib.Failure{Kind: "correspondence", Signature: "PutBucketPolicy", What: "PUT ?policy accepted a document Model.Policy.validateDocument always refuses", Input: in, Impl: impl, Model: model})
+			if o.g.doc.Kind == "d" && mres != "ok" {
+				res.Fail(lib.Failure{Kind: "correspondence", Signature: "PutBucketPolicy", What: "PUT ?policy accepted a document Model.Policy.validateDocument refuses", Input: in, Impl: impl, Model: model})
 			}
 		}
 	}
